@@ -25,7 +25,7 @@ try:
             results[sid] = "patch does not apply"
             continue
         props = meta.get("checks") or [meta["property"]]
-        hit = []
+        hit, infra = [], []
         for p in props:
             t0 = time.time()
             out = subprocess.run([os.path.join(VERIF, "bin", "check"), p, tier], cwd=VERIF, env=dict(env, VERIF_REPO=WT), capture_output=True, text=True)
@@ -34,8 +34,9 @@ try:
             if out.returncode == 1 and n:
                 hit.append(p)
             elif out.returncode == 2:
+                infra.append(p)
                 print("   " + (out.stderr.strip().splitlines() or ["?"])[-1][:300])
-        results[sid] = "detected by " + ", ".join(hit) if hit else "NOT detected"
+        results[sid] = "detected by " + ", ".join(hit) if hit else ("inconclusive (check exit 2: %s)" % ", ".join(infra) if infra else "NOT detected")
         meta["last_result"] = {"tier": tier, "result": results[sid], "date": time.strftime("%Y-%m-%d")}
         json.dump(meta, open(os.path.join(d, "meta.json"), "w"), indent=1)
 finally:
